@@ -204,18 +204,16 @@ func c01Run(j vs.Job) *vs.JobResult {
 			return r
 		}
 		p.W = nil
-		k := 0
 		for _, d := range []struct {
 			name string
 			n    int
 		}{{"c2s", len(w0.c2s[0].Written)}, {"s2c", len(w0.s2c[0].Written)}} {
 			for off := 1; off < d.n; off++ {
-				if k%p.NShards == p.Shard {
+				if stableShard(p.NShards, d.name, off) == p.Shard {
 					c := base
 					c.Seg = fmt.Sprintf("cut:%s:%d", d.name, off)
 					p.W = append(p.W, c)
 				}
-				k++
 			}
 		}
 	}
